@@ -644,6 +644,12 @@ func (e *Entity) Serialize(w io.Writer) error {
 	if err != nil {
 		return err
 	}
+	for _, revocation := range e.Revocations {
+		err = revocation.Serialize(w)
+		if err != nil {
+			return err
+		}
+	}
 	for _, ident := range e.Identities {
 		err = ident.UserId.Serialize(w)
 		if err != nil {
